@@ -19,10 +19,32 @@ STD_TRUSTED = [
 
 
 # ---------------------------------------------------------------- sx wire
+def _plain(x):
+    """nested python value -> nested lists of ints (strings become code point lists); None if a big int needs the slow path"""
+    if isinstance(x, bool):
+        return 1 if x else 0
+    if isinstance(x, int):
+        if -(1 << 60) < x < (1 << 60):
+            return x
+        raise OverflowError
+    if isinstance(x, str):
+        return list(map(ord, x))
+    if x is None:
+        return []
+    return [_plain(y) for y in x]
+
+
+_TR_ENC = str.maketrans({"[": "(", "]": ")", ",": " "})
+_TR_DEC = str.maketrans({"(": "[", ")": "]", " ": ","})
+
+
 def enc(x):
-    out = []
-    _enc(x, out)
-    return "".join(out)
+    try:
+        return json.dumps(_plain(x), separators=(",", ":")).translate(_TR_ENC)
+    except OverflowError:
+        out = []
+        _enc(x, out)
+        return "".join(out)
 
 
 def _enc(x, out):
@@ -54,6 +76,8 @@ _tok = re.compile(r"\(|\)|[^\s()]+")
 
 
 def dec(s):
+    if "x" not in s:
+        return json.loads(s.translate(_TR_DEC))
     stack = [[]]
     for t in _tok.findall(s):
         if t == "(":
